@@ -61,6 +61,34 @@ def self_attrs(node):
     return {n.attr for n in ast.walk(node) if isinstance(n, ast.Attribute) and isinstance(n.value, ast.Name) and n.value.id == "self"}
 
 
+def shared_obligations(ctx, rule, owners=None):
+    """Re-state, under the borrowing property's rule id, the translation-validation obligations (R3 skeleton agreement, R8 frozen templates)
+    of the emitters of the given classes: the compiled form of a construct is a construct of that class too."""
+    from ..core import Ctx
+    sub = getattr(ctx.model, "_c04_shared", None)
+    if sub is None:
+        sub = Ctx("C04", ctx.tier, ctx.root, model=ctx.model)
+        sub._summ = summariser(ctx)
+        run(sub)
+        ctx.model._c04_shared = sub
+    for e in sub.errors:
+        ctx.error("shared C04 rules: " + e)
+    n = 0
+    seen_owner = set()
+    for o in sub.obligations:
+        if o.rule not in ("C04.R3", "C04.R7", "C04.R8"):
+            continue
+        owner = str(o.where).split(".")[0]
+        if owners is not None and owner not in owners:
+            continue
+        seen_owner.add(owner)
+        n += 1
+        ctx.ob(rule, o.where, o.ok, o.what, key=o.key, loc=o.loc, detail=o.detail)
+    if not seen_owner:
+        ctx.error("%s: none of the named classes has generated-code obligations" % rule)
+    return n
+
+
 def run(ctx):
     M = ctx.model
     units = template_units(ctx)
